@@ -45,6 +45,10 @@ parser { case { "a" -> { yield T; } "c" -> { m = 1; } /d+/ -> { yield V; } } opt
 parser { case { "1" -> { tag = "wxyz"; } "2" -> { tag = "q"; u = "hi"; } "3" -> { s = "ok"; u += "a"; } else -> { tag += /[a-c]+/; ";"; } } u += /./; "!"; }"""),
     ("feat-defaults-dyn", ["-fallocate-str-space-dynamic"], """out str[5] a = "abcd"; out str[3] b; out bool f = true; out enum{X,Y,Z} e; out int{size 2} k = -7; hook h;
 parser { h(); b += /[xy]+/; ","; a = "z"; delete b; b += [k + 72]; e = Z; if f && e == Z { a += "!"; } h(); }"""),
+    ("feat-bigstr", [], """out unterminated str[256] big; out int{unsigned, size 1} z = 165; out str[256] t256; out str[257] t257; out int{unsigned, size 2} k = 0; hook h;
+parser { loop { case { "a" -> { big += [65]; t256 += [66]; t257 += [67]; } "b" -> { k = [big.len + t256.len + t257.len]; h(); } /c+/ -> { try { big += "x"; } catch (outofspace) { delete big; k = [k + 1]; } } } } }"""),
+    ("feat-highbyte", [], """out str[4] t; out int m = 0; hook h;
+parser { t += /./; if t[0] > 127 { m = 1; } elif t[0] == 65 { m = 2; } m = [m + t[0]]; h(); "!"; }"""),
     ("feat-signed", [], """out int{signed, size 1} a = -1; out int{signed, size 2} b = 0; out int{size 8} c = 0; out int{unsigned, size 4} d = 0;
 parser { foreach { /./ ; } do { a = [a - 100]; b = [b + a * 2]; d = [d - 1]; c = [c * 3 + d]; } }"""),
 ]
